@@ -68,7 +68,7 @@ func ghostAssert(b bool) {}
 func ghostAssume(b bool, why string) {}
 
 // ghostProtect(s): elements of s are private to this frame. ghostProtectFields(p, names...): so are these fields of *p.
-func ghostProtect(s any)                          {}
+func ghostProtect(s any)                         {}
 func ghostProtectFields(p any, fields ...string) {}
 
 // atLoopEntry(x): the value of x when the innermost loop was entered.
